@@ -188,6 +188,10 @@ def run(db, chk):
                "and the breadth-first pass runs past its buffers", min_instances=14)
     chk.absorb(db, "C18", {"C18-M3"}, "C08-B7", "the per-node area buffer of a mesh has one entry per node, isolated "
                "nodes included (shared with C18-M3)", min_instances=4)
+    chk.absorb(db, "C01", {"C01-E8"}, "C08-B9", "the spanning-tree resolver, interpreted as a whole on small node "
+               "graphs with and without a masked node (shared with C01-E8), indexes no table outside its bounds: "
+               "e.g. the `no basin` sentinel of a masked neighbour is never used as an index",
+               pred=lambda o: o["ok"] or "out-of-bounds" in (o.get("detail") or ""), min_instances=100, tier="quick")
     # ---- B3
     resize_safe = {}
     for fn in db.fns(POOL + "::resize"):
